@@ -234,7 +234,7 @@ impl Monitor for C12 {
          (non-monogamous, cyclic, isolated nodes, zero-arity operations; half with unique edge and node labels). Oracle: substitution on the plain model (node blocks, fresh copy of each \
          operation image, legs unioned with the expanded incidence lists, flood-fill quotient), compared by typing and isomorphism with the strict trait's map_arrow and with the lax trait through \
          dyn_functor; Identity functors; F(f;g), F(f|g), F(f+), F(id), F(twist) against the same expressions on the images through the API. non-trivial = >=1 hyperedge and an object whose image \
-         has length != 1; distinct = hash of (spec, diagram)."
+         has length != 1; distinct = hash of (spec, diagram). Also: operation images on a shared, non-injective boundary (possibly cyclic), the lax trait on arguments that still carry pending unifications, the deprecated shim compared up to isomorphism."
     }
     fn corpus_len(&self) -> u64 {
         corpus().len() as u64
